@@ -156,6 +156,9 @@ func (c WTLengthSliceWrapper) Read(data []byte, ptr unsafe.Pointer, wt plenccore
 			return 0, fmt.Errorf("invalid varint for slice entry %d", i)
 		}
 		offset += n
+		if s > uint64(len(data)-offset) {
+			return 0, fmt.Errorf("length %d of slice entry %d exceeds data length", s, i)
+		}
 
 		ptr := unsafe.Add(h.Data, i*int(c.EltSize))
 		n, err := c.Underlying.Read(data[offset:offset+int(s)], ptr, plenccore.WTLength)
